@@ -112,7 +112,7 @@ def check_output(rec, sub, out, ref, sm, m, L, want, n):
                     continue
                 ok = both[sl]
                 with np.errstate(invalid="ignore"):
-                    bad = ok & ~(np.abs(got - exact[sl][..., fi]) <= 64 * EPS * mag[sl][..., fi] + 1e-300)
+                    bad = ok & ~((got == exact[sl][..., fi]) | (np.abs(got - exact[sl][..., fi]) <= 64 * EPS * mag[sl][..., fi] + 1e-300))
                 if bad.any():
                     i, j = np.argwhere(bad)[0]
                     rec.fail("values", dict(sub, level=lv, box=[lo2, hi2], field=nm, explained_by_aliasing=aliasing),
@@ -132,7 +132,7 @@ def check_output(rec, sub, out, ref, sm, m, L, want, n):
 def ref_kind(ref, nm):
     if nm == "A":
         return "affine"
-    if nm == "C" or nm.startswith("f"):
+    if nm in ("C", "H") or nm.startswith("f"):
         return "const"
     return "general"
 
@@ -152,7 +152,7 @@ def run_case(case, workdir):
         lists = [["all"], ref.fields[:3]]
     else:
         positions = (list(range(0, N + 1)) if case["dyadic"] else list(range(1, N, 2)))[::case["stride"]]
-        lists = [["A", "C", "G"], ["G"], ["all"], ["G", "A"]]
+        lists = [["A", "C", "G", "H"], ["G"], ["all"], ["G", "A"]]
     k = 0
     for m in positions:
         pos = sm.pos_of(m)
